@@ -617,30 +617,7 @@ fn layout_stratum(ctx: &Ctx, roundtrip: bool) {
             }
         }
         if !ctx.flag("lite") {
-            let n8: Vec<usize> = (0..cfgs.len()).filter(|i| cfgs[*i].2 == 8).collect();
-            let switches = 140_000usize;
-            for k in 0..switches {
-                // alternate ranges every step, rotate matrices slowly; three pixels per decode, codes revisited rarely
-                let ci = n8[(k % 2) * 7 + (k / 2) % 7 % (n8.len() / 2)];
-                let (m, full, n) = cfgs[ci];
-                let c = (k / 257 % 256) as u32;
-                let tri = [[c, 255 - c, (c * 7 + 3) % 256], [(k % 256) as u32, 128, 64], [200, c, c]];
-                let mut w = Worst::new();
-                let st = DecStats::default();
-                decode_check_one::<u8>(ci, (m, full, n), &tri, &mut w, &st, None);
-                seq_evals += 3;
-                if !(w.err <= TOL_C01) {
-                    if let Some(at) = w.at {
-                        ev::violation(
-                            format!("C01|decode-accuracy|after-many-config-switches|{m:?}|{}", if full { "full" } else { "limited" }),
-                            format!("after {k} alternating 8-bit decodes on one thread: |rgb - H.273| = {:.3e}", w.err),
-                            dec_case(&cfgs, &at).set("err", w.err).set("switches", k),
-                        );
-                        break;
-                    }
-                }
-            }
-            ev::observe("single_thread_config_switches", switches);
+            seq_evals += many_switches(&cfgs, false);
         }
         ev::observe("sequential_order_passes", 3);
         ev::add_evals(seq_evals);
@@ -682,6 +659,10 @@ fn layout_stratum(ctx: &Ctx, roundtrip: bool) {
         }
         ev::observe("transcode_sequences", seq);
         ev::add_evals(seq * 21);
+        if !ctx.flag("lite") {
+            let n = many_switches(&cfgs, true);
+            ev::add_evals(n);
+        }
     }
     ev::observe("layout_stratum_frames", frames.load(Relaxed));
     ev::observe("layout_stratum_pixels", pixels.load(Relaxed));
@@ -689,6 +670,57 @@ fn layout_stratum(ctx: &Ctx, roundtrip: bool) {
         ev::observe("layout_stratum_worst_abs_err", worst.lock().unwrap().err);
     }
     ev::add_evals(pixels.load(Relaxed));
+}
+
+/// 140,000 tiny 8-bit decodes (C08: decode + re-encode) on one thread, the range flipping at every call and the
+/// matrix rotating slowly. Four reserved code values are used at call 0 and then left alone until call 255, 257,
+/// 65,535 and 65,537 respectively (each lands in the other range than call 0), so that per-thread state that is
+/// stamped with a small wrapping counter is observable; all other codes are revisited at irregular distances.
+fn many_switches(cfgs: &[(MC, bool, u8)], roundtrip: bool) -> u64 {
+    let switches = 140_000usize;
+    const RESERVED: [(usize, u32); 4] = [(255, 201), (257, 203), (65_535, 205), (65_537, 207)];
+    let avoid = |v: u32| if RESERVED.iter().any(|(_, r)| *r == v) { v + 1 } else { v };
+    let mut evals = 0u64;
+    let mut rt = RtStats::default();
+    for k in 0..switches {
+        let (m, full) = (MATRICES[(k / 2) % 7], k % 2 == 1);
+        let Some(ci) = cfgs.iter().position(|c| *c == (m, full, 8)) else { continue };
+        let c = (k / 257 % 256) as u32;
+        let mut tri = vec![[avoid(c), avoid(255 - c), avoid((c * 7 + 3) % 256)], [avoid((k % 256) as u32), 128, 64], [200, avoid(c), avoid(c)]];
+        if k == 0 {
+            tri = vec![[201, 203, 205], [203, 205, 207], [205, 207, 201], [207, 201, 203]];
+        }
+        if let Some((_, r)) = RESERVED.iter().find(|(at, _)| *at == k) {
+            tri[1] = [*r, *r, *r];
+        }
+        let mut w = Worst::new();
+        let st = DecStats::default();
+        decode_check_one::<u8>(ci, (m, full, 8), &tri, &mut w, &st, if roundtrip { Some(&mut rt) } else { None });
+        evals += tri.len() as u64;
+        if !roundtrip && !(w.err <= TOL_C01) {
+            if let Some(at) = w.at {
+                ev::violation(
+                    format!("C01|decode-accuracy|after-many-config-switches|{m:?}|{}", if full { "full" } else { "limited" }),
+                    format!("after {k} alternating 8-bit decodes on one thread: |rgb - H.273| = {:.3e}", w.err),
+                    dec_case(cfgs, &at).set("err", w.err).set("switches", k),
+                );
+                break;
+            }
+        }
+        if roundtrip {
+            if let Some((ci2, u8s, t, p, got, exp)) = rt.first_bad {
+                let (m2, f2, n2) = cfgs[ci2];
+                ev::violation(
+                    format!("C08|roundtrip|after-many-config-switches|{m2:?}|{}", if f2 { "full" } else { "limited" }),
+                    format!("after {k} alternating 8-bit round trips on one thread: plane {p} of {t:?} came back {got}, expected {exp}"),
+                    J::obj().set("kind", "roundtrip").set("matrix", format!("{m2:?}")).set("full", f2).set("n", n2).set("u8", u8s).set("yuv", t).set("plane", p).set("got", got).set("expected", exp).set("switches", k),
+                );
+                break;
+            }
+        }
+    }
+    ev::observe("single_thread_config_switches", switches);
+    evals
 }
 
 // ------------------------------------------------------------------ C02
